@@ -21,8 +21,9 @@ from tbf import walk, kids, strip, AnalysisBroken
 LEVEL = "other"
 TECHNIQUE = "index-domain analysis of rebuild's gather/scatter lambdas, constructor-vs-rebuild construction-fact comparison over argument origins, must-compile witnesses per ordering"
 
-FACT_CALLS = {"splitInGroups", "emplace_back", "getParentIndex", "getLeafSpacialIndex", "getCellSpacialIndex", "push_back",
-              "resize", "getNbLeaves", "getNbCells", "getEndingSpacialIndex", "back", "clear", "size"}
+# the calls that construct something (pure queries are part of the conditions / arguments of these and are not facts of their own:
+# hoisting `x.getNbCells()` into a local or writing `!v.empty()` for `v.size()` changes no fact)
+FACT_CALLS = {"splitInGroups", "emplace_back", "push_back", "resize", "clear"}
 
 REBUILD_TU = witness.HEADERS + """
 template <class SpaceIndexType, class Real, long int Dim>
@@ -89,8 +90,12 @@ def construction_facts(facts, fn, pos_var_names):
                     break
             out.setdefault("sorter %s(%s)" % (x["t"].replace(" ", ""), ",".join(args)), x)
         if k in ("IfStmt", "WhileStmt"):
-            cond = x["c"][0]
-            out.setdefault("cond %s %s" % (k, canon(fm.origin(cond))), x)
+            cond = x["c"][-3] if (k == "IfStmt" and len(x["c"]) >= 3) else x["c"][0] if k == "IfStmt" else x["c"][-2]
+            out.setdefault("cond %s" % canon(fm.cond_origin(cond)), x)
+        if k == "UnaryOperator" and x.get("op") in ("++", "--") and strip(kids(x)[0]).get("k") == "DeclRefExpr" and strip(kids(x)[0]).get("did") in fm.assigned:
+            out.setdefault("step %s%s" % (x["op"], canon(fm.origin(kids(x)[0]))), x)
+        if k == "CompoundAssignOperator" and x.get("op") in ("+=", "-=") and strip(kids(x)[0]).get("k") == "DeclRefExpr" and fm.origin(kids(x)[1]) == "1":
+            out.setdefault("step %s%s" % ("++" if x["op"] == "+=" else "--", canon(fm.origin(kids(x)[0]))), x)
         if k == "ForStmt":
             init = x["c"][0]
             v = [d for d in kids(init) if d.get("k") == "VarDecl"] if init else []
@@ -99,7 +104,9 @@ def construction_facts(facts, fn, pos_var_names):
                     lo, hi, d = fm.loop_interval(x)
                     out.setdefault("loop [%s,%s] %s" % (canon(str(lo)), canon(str(hi)), d), x)
                 except AnalysisBroken:
-                    out.setdefault("loop ? " + canon(facts.ntext(x["c"][1])), x)
+                    out.setdefault("cond " + canon(fm.cond_origin(x["c"][1])), x)
+            elif x["c"][1] is not None:
+                out.setdefault("cond " + canon(fm.cond_origin(x["c"][1])), x)    # for( ; c ; step): a while loop
         if k == "CXXForRangeStmt":
             out.setdefault("range " + canon(fm.origin(x["c"][1])), x)
     return out
